@@ -259,7 +259,7 @@ func checkC04(c *ForeignCase) *Outcome {
 	})
 }
 
-var c04Fixtures = []string{"flat24", "nest", "tiny"}
+var c04Fixtures = []string{"flat24", "nest", "tiny", "rep3"}
 
 func TestC04(t *testing.T) {
 	cfg := foreignCfg{fixtures: fixturesFromEnv(c04Fixtures), maxRecs: envInt("VERIF_MAXRECS", 120), gen: vt.DefaultGen}
